@@ -7,6 +7,7 @@ import (
 
 	"github.com/elk-language/elk/bytecode"
 	"github.com/elk-language/elk/value"
+	"github.com/elk-language/elk/value/symbol"
 )
 
 // C10 / C13: value-stack reallocation keeps every frame pointer, stack pointer and open upvalue
@@ -304,5 +305,39 @@ func VX_C10_next_across_growth() {
 	vxAssert(got.IsSmallInt() && int64(got.AsSmallInt()) == x, "next-across-growth/the-loop-variable-gets-the-value-next-returned")
 	if slots == 7 {
 		vxAssert(len(vm.stack) > before, "next-across-growth/the-scenario-reallocates")
+	}
+}
+
+// instantiation of a class with a bytecode initialiser: INSTANTIATE replaces the class on the
+// stack by the new instance and calls `#init`; when that call reallocates the value stack the
+// initialiser must still run on the instance and the expression must evaluate to the instance
+func VX_C10_instantiate_across_growth() {
+	MAX_VALUE_STACK_SIZE = 1 << 20
+	class := value.NewClass()
+	initFn := &BytecodeFunction{Instructions: []byte{byte(bytecode.RETURN_SELF)}}
+	class.Methods[symbol.S_init] = initFn
+	fn := &BytecodeFunction{
+		Instructions:   []byte{byte(bytecode.GET_LOCAL_1), byte(bytecode.INSTANTIATE8), 0, byte(bytecode.RETURN)},
+		parameterCount: 3,
+	}
+	slots := 7 + vxSplit("slots", 3) // 7: the initialiser call reallocates; 9: it does not
+	vm := vxThread(slots)
+	vm.callFrames = make([]CallFrame, 6)
+	vm.cfpSet(&vm.callFrames[0])
+	vm.bytecode = fn
+	vm.ipSet(&fn.Instructions[0])
+	vm.push(value.Nil)
+	vm.push(value.Ref(class))
+	vm.push(value.SmallInt(vxInt64("a")).ToValue())
+	vm.push(value.SmallInt(vxInt64("b")).ToValue())
+	vm.localCount = 4
+	before := len(vm.stack)
+	vm.run()
+	vxAssert(vm.state != errorState, "instantiate-across-growth/no-error")
+	got := vm.peek()
+	obj, ok := got.SafeAsReference().(*value.Object)
+	vxAssert(ok && obj.DirectClass() == class, "instantiate-across-growth/evaluates-to-an-instance-of-the-class")
+	if slots == 7 {
+		vxAssert(len(vm.stack) > before, "instantiate-across-growth/the-scenario-reallocates")
 	}
 }
